@@ -108,6 +108,84 @@ func c19Run(r *Run) {
 		}
 	}
 	r.curRule = "C19-SHARED"
+	// container parameters of ClassGeneric's own helpers that some caller fills with something it did not
+	// build itself (a slice taken from a property's declared type, a field of the declaration): inside the
+	// helper they stand for the shared declaration
+	sharedParams := map[types.Object]bool{}
+	{
+		methodDecl := map[types.Object]*ast.FuncDecl{}
+		for _, fd := range funcDecls(npkg) {
+			if recvTypeName(fd) == "ClassGeneric" {
+				methodDecl[info.Defs[fd.Name]] = fd
+			}
+		}
+		isContainer := func(t types.Type) bool {
+			switch t.Underlying().(type) {
+			case *types.Slice, *types.Map:
+				return true
+			}
+			return false
+		}
+		for _, fd := range funcDecls(npkg) {
+			if recvTypeName(fd) != "ClassGeneric" || fd.Body == nil {
+				continue
+			}
+			fresh := map[types.Object]bool{}
+			ast.Inspect(fd.Body, func(n ast.Node) bool {
+				if as, ok := n.(*ast.AssignStmt); ok && len(as.Lhs) == len(as.Rhs) {
+					for i, rh := range as.Rhs {
+						isFresh := false
+						switch x := ast.Unparen(rh).(type) {
+						case *ast.CompositeLit:
+							isFresh = true
+						case *ast.CallExpr:
+							if id, ok := ast.Unparen(x.Fun).(*ast.Ident); ok && (id.Name == "make" || id.Name == "append") {
+								isFresh = id.Name == "make" || (len(x.Args) > 0 && exprStr(x.Args[0]) == "nil")
+							}
+						}
+						if id, ok := as.Lhs[i].(*ast.Ident); ok && isFresh {
+							fresh[info.ObjectOf(id)] = true
+						}
+					}
+				}
+				return true
+			})
+			ast.Inspect(fd.Body, func(n ast.Node) bool {
+				c, ok := n.(*ast.CallExpr)
+				if !ok {
+					return true
+				}
+				callee := methodDecl[calleeOf(info, c)]
+				if callee == nil {
+					return true
+				}
+				k := 0
+				for _, f := range callee.Type.Params.List {
+					for _, nm := range f.Names {
+						if k < len(c.Args) && isContainer(info.TypeOf(f.Type)) {
+							a := ast.Unparen(c.Args[k])
+							ownFresh := false
+							switch x := a.(type) {
+							case *ast.Ident:
+								ownFresh = fresh[info.Uses[x]] || x.Name == "nil"
+							case *ast.CompositeLit:
+								ownFresh = true
+							case *ast.CallExpr:
+								if id, ok := ast.Unparen(x.Fun).(*ast.Ident); ok && id.Name == "make" {
+									ownFresh = true
+								}
+							}
+							if !ownFresh {
+								sharedParams[info.Defs[nm]] = true
+							}
+						}
+						k++
+					}
+				}
+				return true
+			})
+		}
+	}
 	nMethods := 0
 	for _, fd := range funcDecls(npkg) {
 		if recvTypeName(fd) != "ClassGeneric" || len(fd.Recv.List[0].Names) == 0 {
@@ -117,6 +195,13 @@ func c19Run(r *Run) {
 		fk := funcKey(npkg, fd)
 		recv := info.Defs[fd.Recv.List[0].Names[0]]
 		shared := map[types.Object]bool{}
+		for _, f := range fd.Type.Params.List {
+			for _, nm := range f.Names {
+				if sharedParams[info.Defs[nm]] {
+					shared[info.Defs[nm]] = true
+				}
+			}
+		}
 		// is e rooted at the shared statement?
 		var isShared func(e ast.Expr) bool
 		isShared = func(e ast.Expr) bool {
